@@ -219,8 +219,9 @@ def run(check):
 
   # ------------------------------------------------------------------ which names are inputs of an aggregate
   r_m = check.rule('R-C16-rule-applies', 1, 'a name is an input of an aggregate only if the rule pattern matches the whole name')
-  from .c08 import rule_match_anchored
+  from .c08 import rule_match_anchored, rule_name_cache
   rule_match_anchored(check, cx, r_m)
+  rule_name_cache(check, cx, r_m)
 
   # ------------------------------------------------------------------ aggregate key
   r_a = check.rule('R-C16-aggregate-key', 3, 'every input of an aggregate is routed to all hash destinations of the aggregate\'s name')
